@@ -96,3 +96,5 @@ def run(F, rep, tier):
     pats = [x for x in items if x["k"] == "fn" and x["mod"].endswith("patterns")]
     n = field_use(rep, "C17-R3", F, crate, pats, F.adts("mech_core.lib"), "nodes::Pattern", lambda f: "Pattern" in f[1], exclude_fns=("summarize_pattern",))
     rep.floor("C17-R3", "pattern traversal arms with sub-pattern fields", n, 3)
+    from rules.loopshape import c17_break_only_after_transition
+    c17_break_only_after_transition(F, rep)
